@@ -84,6 +84,7 @@ def classer(cfg):
 COMP = Component(
     spec="Metrics", name="metrics", build=build, methods=methods,
     has_arg=lambda m: True, gen_arg=gen_arg, impl_cfg=describe, module=__name__,
+    shadow=lambda cfg: methods(cfg) if cfg["en"] else [],   # disabled metrics define empty nonexclusive methods
     trace_extra="PubMatches == Line.pub = C!Pub(cfg, st)",
     trace_extra_names=["PubMatches"],
 )
